@@ -368,7 +368,7 @@ def _len(ip, st, args, kwargs):
         return
     t = L.len_term(st, v)
     if is_sym(v):
-        st.assume(tm.Le(tm.Int(0), t))
+        st.assume(tm.Le(tm.Int(0), t), axiom=True)
     yield st, as_value("int", t)
 
 
@@ -877,7 +877,7 @@ def quant_map(ip, st, lm, is_all):
     e = tm.Nth(xs.term, i)
     terms, raised = [], []
     for s1, v in ip.call(inner.fork(), lm.func, [L.elem_value(xs.kind, e)], {}):
-        extra = tm.And(*[c for c in s1.pc if c not in inner.facts])
+        extra = tm.And(*[c for c in s1.pc if c not in inner.facts and c not in s1.axioms])
         if isinstance(v, Raise):
             raised.append((extra, v))
         else:
@@ -907,7 +907,7 @@ def _quant_gen(ip, st, e, gens, k, is_all, bvars, guards):
         return_terms = []
         raised = []
         for s1, v in results:
-            extra = [c for c in s1.pc if c not in st.facts]
+            extra = [c for c in s1.pc if c not in st.facts and c not in s1.axioms]
             cond = tm.And(*extra)
             if isinstance(v, Raise):
                 raised.append((cond, v))
@@ -976,9 +976,9 @@ def _reown_exc(dst, src, exc):
 
 def _finish_quant(ip, st, body, raised, is_all, inner):
     # st is the outer state (without index guards). inner holds the pc with the guard for bound var.
-    extra = [c for c in inner.pc if c not in st.facts]
+    extra = [c for c in inner.pc if c not in st.facts and c not in inner.axioms]
     guard = tm.And(*extra)
-    bv = [t for t in tm.subterms(tm.And(guard, body)) if t.op == "bvar"]
+    bv = sorted(tm.free_bvars(tm.And(guard, body)), key=lambda t: t.val)
     q = tm.ForAll(bv, tm.Implies(guard, body)) if is_all else tm.Exists(bv, tm.And(guard, body))
     for cond, r in raised:
         c = tm.Exists(bv, tm.And(guard, cond))
@@ -1087,9 +1087,9 @@ def _hex_of(v):
 def _m_hex(ip, st, recv, args, kwargs):
     r = _hex_of(recv)
     if is_sym(r):
-        st.assume(V.is_hex(r.term))
-        st.assume(tm.Eq(tm.Len(r.term), tm.Mul(tm.Int(2), tm.Len(recv.term))))
-        st.assume(tm.Eq(V.unhex(r.term), recv.term))
+        st.assume(V.is_hex(r.term), axiom=True)
+        st.assume(tm.Eq(tm.Len(r.term), tm.Mul(tm.Int(2), tm.Len(recv.term))), axiom=True)
+        st.assume(tm.Eq(V.unhex(r.term), recv.term), axiom=True)
     yield st, r
 
 
@@ -1117,7 +1117,7 @@ def fromhex_value(ip, st, s):
         return
     for st1, b in ip.branch(st, Sym("bool", ok)):
         if b:
-            st1.assume(tm.Le(tm.Mul(tm.Int(2), tm.Len(res.term)), tm.Len(s.term)))
+            st1.assume(tm.Le(tm.Mul(tm.Int(2), tm.Len(res.term)), tm.Len(s.term)), axiom=True)
             yield st1, res
         else:
             yield st1, Raise(mk_exc(st1, "ValueError", "non-hexadecimal number found in fromhex() arg"))
@@ -1673,3 +1673,28 @@ def _urandom(ip, st, args, kwargs):
     r = Sym("bytes", tm.Fresh("urandom", BYTES))
     st.assume(tm.Eq(tm.Len(r.term), to_term(n)))
     yield st, r
+
+
+int_of_str = tm.FunDecl("int_of_str", [STR, INT], INT)
+int_literal = tm.FunDecl("is_int_literal", [STR, INT], BOOL)
+str_lower = tm.FunDecl("str.lower", [STR], STR)
+
+
+@register_external("builtins.int_of_str")
+def _int_of_str(ip, st, args, kwargs):
+    """int(s, base): ValueError unless s is an integer literal in that base (A-LIB)"""
+    s, base = args
+    ok = int_literal(to_term(s), to_term(base))
+    for st1, b in ip.branch(st, Sym("bool", ok)):
+        if b:
+            yield st1, Sym("int", int_of_str(to_term(s), to_term(base)))
+        else:
+            yield st1, Raise(mk_exc(st1, "ValueError", "invalid literal for int()"))
+
+
+@register_external("str.lower")
+def _str_lower(ip, st, args, kwargs):
+    (s,) = args
+    r = str_lower(to_term(s))
+    st.assume(tm.Eq(tm.Len(r), tm.Len(to_term(s))))
+    yield st, Sym("str", r)
